@@ -1,12 +1,12 @@
 #!/bin/bash
-# seeded_run_iso.sh <name> <check-id>... : run checks against a seeded change WITHOUT touching /repo or /verif:
+# seeded_run_iso.sh <name> <check-id>... (env: PATCH=<file> instead of seeded/<name>/patch.diff, VERIF_REV, TIER, SHOW_DRIFT=n): run checks against a seeded change WITHOUT touching /repo or /verif:
 # a plain copy of /repo's working tree with seeded/<name>/patch.diff applied and a copy of /verif are
 # bind-mounted over /repo and /verif inside a private mount namespace (so it can run beside other checks).
 name=$1; shift
 iso=/tmp/iso-$name
 rm -rf $iso; mkdir -p $iso/repo $iso/verif
 rsync -a --exclude .git --exclude bin /repo/ $iso/repo/
-( cd $iso/repo && git apply /verif/seeded/$name/patch.diff ) || { echo "PATCH-DOES-NOT-APPLY"; rm -rf $iso; exit 2; }
+( cd $iso/repo && git apply ${PATCH:-/verif/seeded/$name/patch.diff} ) || { echo "PATCH-DOES-NOT-APPLY"; rm -rf $iso; exit 2; }
 if [ -n "${VERIF_REV:-}" ]; then   # the machinery as it was at an earlier commit (to record what a strengthening changed)
   git -C /verif archive $VERIF_REV | tar -x -C $iso/verif
 else
@@ -16,5 +16,6 @@ for p in "$@"; do
   out=$(unshare -m sh -c "mount --bind $iso/repo /repo && mount --bind $iso/verif /verif && cd /verif && ./check $p --tier ${TIER:-quick}" 2>&1); rc=$?
   echo "seed=$name check=$p rc=$rc $(echo "$out" | grep -E '^(VIOLATION|INCONCLUSIVE|OK)' | head -2 | tr '\n' '|' | cut -c1-200)"
   echo "$out" | grep -E '^  predicate=' | sort | uniq -c | head -4
+  [ -n "${SHOW_DRIFT:-}" ] && echo "$out" | grep -E '^DRIFT' | cut -c1-300 | head -${SHOW_DRIFT}
 done
 rm -rf $iso
